@@ -244,7 +244,15 @@ fn gen_f64(rng: &mut Rng) -> f64 {
         5 => f64::MAX,
         6 => 5e-324,
         7 => 0.1,
-        _ => f64::from_bits(rng.next()),
+        _ => {
+            // any bit pattern; a NaN's payload and sign do not survive its text (`NaN`), nor need they
+            let d = f64::from_bits(rng.next());
+            if d.is_nan() {
+                f64::NAN
+            } else {
+                d
+            }
+        }
     }
 }
 
@@ -620,5 +628,7 @@ pub fn cases(seed: u64, tier: Tier) -> Cases {
             neg_call!(run, rng, r, "mapRet", true, r.map.is_empty(), format!("mapRet(n={:?}, ids={:?})", k, ids), format!("{:?}", r.map), map_ret(k, &ids), |v: BTreeMap<String, i32>| format!("{:?}", v));
         }
     }
+    drop(run);
+    crate::ops::emit::add(&mut cs, &mut rng, tier);
     cs
 }
